@@ -458,7 +458,11 @@ func c15Compare(c *c15Case, model *c15Model, impl *c15Impl) []c15Finding {
 	if len(impl.Invoke) > 1 {
 		fs = append(fs, c15Finding{"C15:invoke:nondeterministic", fmt.Sprintf("%d different Invoke outcomes in %d runs of one compiled workflow", len(impl.Invoke), impl.InvokeRuns)})
 	}
-	if len(impl.Invoke) > 0 && model.Invoke != nil {
+	// Out of scope (DESIGN.md §5, "checked and not a defect", belongs to C04): a nil value of an
+	// interface-typed successor input.  The graph runner cannot tell a nil `any` arriving at END
+	// (or at an interface-typed node) from "nothing arrived" and fails the non-streaming run.
+	nilAny := c.TargetName == "Any" && model.Invoke != nil && model.Invoke.Class == "ok" && model.Invoke.Val["k"] == "nil"
+	if len(impl.Invoke) > 0 && model.Invoke != nil && !nilAny {
 		r := impl.Invoke[0]
 		if r.Class != model.Invoke.Class {
 			info := ""
